@@ -263,7 +263,8 @@ void
 O_<TN_, TA_, TH_, TS_...>::deepForwardActive(Control& control,
 											 const Request request) noexcept
 {
-	HFSM2_ASSERT(control._core.registry.isActive(HEAD_ID));
+	// (during the initial activation no region is active yet)
+	HFSM2_ASSERT(!control._core.registry.isActive() || control._core.registry.isActive(HEAD_ID));
 
 	const ProngCBits requested = orthoRequested(static_cast<const Control&>(control));
 	HFSM2_ASSERT(!!requested);
